@@ -35,7 +35,7 @@ import (
 //vf:override os.Stat = github.com/hashicorp/serf/serf.vfStat
 //vf:override os.IsNotExist = github.com/hashicorp/serf/serf.vfIsNotExist
 //vf:sched
-//vf:switches quick=1 thorough=2
+//vf:switches quick=1 thorough=1
 //vf:paths quick=800000 thorough=8000000
 //vf:unwind 24
 //vf:ticks quick=0 thorough=1
